@@ -379,3 +379,25 @@ def expected_deferred(ext, seen):
 def _pyfloat(v):
     from .fmt import format_number
     return format_number(v)
+
+
+def c16_centre(start, end, radius, clockwise):
+    """C16: for the radius form the centre is at distance |R| from both end points."""
+    h = impl.make_handlers({})
+    impl.call_gcode(h, "G28")
+    impl.call_gcode(h, "G1 X%r Y%r Z1" % (start[0], start[1]))
+    try:
+        (i, j) = h.computeArcCenterOffsets(end[0], end[1], radius, clockwise)
+    except Exception as exc:  # pylint: disable=broad-except
+        return ["computeArcCenterOffsets raised %s" % type(exc).__name__]
+    if i == 0 and j == 0:
+        return []
+    cx, cy = start[0] + i, start[1] + j
+    d1 = math.hypot(cx - start[0], cy - start[1])
+    d2 = math.hypot(cx - end[0], cy - end[1])
+    out = []
+    tol = 1e-9 * max(1.0, abs(radius))
+    if abs(d1 - abs(radius)) > tol or abs(d2 - abs(radius)) > tol:
+        out.append("centre (%r,%r) is at distance %r from the start and %r from the end, |R|=%r"
+                   % (cx, cy, d1, d2, abs(radius)))
+    return out
